@@ -37,7 +37,9 @@ FRAGMENTS = [
     'delta x\n', '{\n    "k": "v"\n}\n', '{"a": [1, 2, {"b": null}]}',
     '{', '"', "'", '--- a/file\n', '+++ b/file\n', '@@ -1 +1 @@\n', '-a\n',
     '+b\n', ' c\n', '\\ No newline at end of file\n', 'Index: x\n',
-    'diff --git a b\n', '    indented\n', '\n', '\r\n', '\r', '\x00',
+    'diff --git a b\n', '    indented\n', 'delta 14\r\n', 'literal 3\r\n',
+    'delta 7\r', '#...diff: length=9, line_endings=dos\ndelta 14\r\n',
+    '#...diff: type=binary\nliteral 5\r\nzabc\r\n', '\n', '\r\n', '\r', '\x00',
     'é', '日本', '\U0001f600', '﻿', '\t', ' ', 'plain text\n', '=',
     ',', ':', '#.z', '#.preamble:', '#...meta: \n', 'x' * 50,
 ]
@@ -88,6 +90,11 @@ def rand_text(rng):
     n = rng.randint(0, 40)
     parts = [rng.choice(FRAGMENTS) for _ in range(n)]
     s = ''.join(parts)
+    r = rng.random()
+    if r < 0.15:
+        s = s.replace('\n', '\r\n')      # a file converted to CRLF
+    elif r < 0.2:
+        s = s.replace('\n', '\r')
     return s[:4096]
 
 
@@ -111,6 +118,12 @@ def benign_doc(rng):
         return {'obj': obj, 'encoding': None}
 
     def diff():
+        if rng.random() < 0.15:
+            nl = rng.choice(['\n', '\r\n'])
+            body = nl.join(['delta %d' % rng.randrange(99), 'zabc',
+                            'literal %d' % rng.randrange(9), 'x', ''])
+            return {'data': body.encode('utf-8'), 'encoding': None,
+                    'line_endings': None, 'type': 'binary'}
         body = clean(texts.text(rng, 'utf-8', lookalikes=False))
         return {'data': body.encode('utf-8'), 'encoding': None,
                 'line_endings': None, 'type': rng.choice([None, 'text'])}
